@@ -626,7 +626,7 @@ impl<'a> Http2Parser<'a> {
 
     /// The header block fragment of a HEADERS frame: payload minus the pad length octet, the
     /// optional priority fields and the trailing padding (RFC 7540, section 6.2).
-    fn header_block_fragment(frame: &Http2Frame) -> Result<&[u8], Http2ParseError> {
+    pub(crate) fn header_block_fragment(frame: &Http2Frame) -> Result<&[u8], Http2ParseError> {
         let mut fragment: &[u8] = &frame.payload;
         let mut pad_length = 0usize;
         if frame.flags & FLAG_PADDED != 0 {
